@@ -1,6 +1,6 @@
 (* Properties/C02.v — a successful parse yields the value the text denotes (model level). Pinned statements only. *)
 From SJ Require Import Base.Bytes Base.Utf8 Base.FloatB Gen.Tables Model.Read Model.Str Model.Num Model.Value Model.De Spec.Syntax Spec.Denote.
-From SJ Require Import Proofs.GrammarFinal Proofs.NumInt.
+From SJ Require Import Proofs.GrammarFinal Proofs.NumInt Proofs.StrSource.
 
 (* Denotes cf bs v (Spec/Denote.v): bs = ws* ++ render c ++ ws* and [denote cf c = Some v], where [denote] maps literals to
    themselves, arrays to their elements in order, strings/keys to their escape-decoded text, objects to the result of inserting
@@ -12,6 +12,9 @@ Proof. exact value_sound_slice. Qed.
 Theorem C02_reader : forall cf bs v, Forall (fun b => (b < 256)%N) bs ->
   from_input (mkEnv RIo TEof cf) bs = Ok v -> Denotes cf bs v.
 Proof. exact value_sound_reader. Qed.
+Theorem C02_str : forall cf bs v, utf8_valid bs = true -> Forall (fun b => (b < 256)%N) bs ->
+  from_input (mkEnv RStr TEof cf) bs = Ok v -> Denotes cf bs v.
+Proof. intros cf bs v Hu Hb. rewrite (from_input_str_slice cf bs Hu). apply value_sound_slice; exact Hb. Qed.
 (* and conversely every text with a denotation parses to it *)
 Theorem C02_complete : forall cf bs v, Denotes cf bs v -> from_input (mkEnv RSlice TEof cf) bs = Ok v.
 Proof. exact value_complete_slice. Qed.
@@ -46,5 +49,6 @@ Proof. vm_compute. reflexivity. Qed.
 
 Print Assumptions C02_slice.
 Print Assumptions C02_reader.
+Print Assumptions C02_str.
 Print Assumptions C02_complete.
 Print Assumptions C02_integer_literal.
